@@ -34,7 +34,7 @@ func c16(r *core.Run) {
 	r.Assumptions = []string{"configuration and registration functions are called before Serve", "API goroutines other than the Serve caller start no earlier than OnServe", "sync.Mutex / sync/atomic give the usual happens-before edges"}
 
 	r.Rule("D1", "guarded-by discipline for Service and work-item fields: a field with a write outside configuration and initialisation is accessed only under the queue mutex, or only atomically, or is covered by a named exemption (guarded lazy default)", 6)
-	r.Rule("D2", "logger: the in-memory logger's buffer and log.Logger are used only with the logger's mutex held (configuration setters aside)", 3)
+	r.Rule("D2", "logger: the in-memory logger's buffer and log.Logger are used only with the logger's mutex held (configuration setters aside)", 2)
 	r.Rule("D3", "mock store: the resource map is accessed only by transaction methods (alive only between Read/Write and Close) and the configuration helper Add", 2)
 	r.Rule("A2", "group confinement (premise of 'state touched only from a group's callbacks needs no user synchronisation'): the lookup of a group's pending work item and the register/append that follows are one critical section (same obligations as C01.A2); otherwise two producers create two work items for one group, two workers run the group's callbacks at once and handler state races", 4)
 	r.Rule("V1", "no shared loop variable: a closure created in a loop and handed on does not capture a variable the loop re-assigns", 1)
@@ -147,7 +147,20 @@ func c16(r *core.Run) {
 	// ---- D2 --------------------------------------------------------------
 	lfns := p.FuncsOfPkg("logger")
 	for _, tn := range []string{"MemLogger"} {
-		mu := core.Field{Struct: "logger." + tn, Name: "mu"}
+		mu, okMu := fieldByType(p, "logger", tn, typeIs("sync.Mutex"))
+		if !okMu {
+			r.Unres("D2", "logger."+tn+".<mutex>", "no unique sync.Mutex field")
+			continue
+		}
+		guarded := map[string]bool{}
+		if st, ok := structType(p, "logger", tn); ok {
+			for i := 0; i < st.NumFields(); i++ {
+				switch types.TypeString(st.Field(i).Type(), nil) {
+				case "*bytes.Buffer", "*log.Logger":
+					guarded[st.Field(i).Name()] = true
+				}
+			}
+		}
 		le := newLockEngine(p, lfns, mu, core.Field{})
 		var an []*ssa.Function
 		for _, m := range methodsOf(p, "logger", tn) {
@@ -155,7 +168,7 @@ func c16(r *core.Run) {
 		}
 		le.solve(an)
 		n := 0
-		for _, ac := range core.FieldAccesses(an, func(f core.Field) bool { return f.Struct == "logger."+tn && (f.Name == "b" || f.Name == "log") }) {
+		for _, ac := range core.FieldAccesses(an, func(f core.Field) bool { return f.Struct == "logger."+tn && guarded[f.Name] }) {
 			if isConfigFn(ac.Fn) || ac.Kind != "load" {
 				continue
 			}
